@@ -73,14 +73,22 @@ func binaryL(p *parser, bp oper.BP, lhs ast.Expr, t *token.Token) ast.Expr {
 
 func binaryR(p *parser, bp oper.BP, lhs ast.Expr, t *token.Token) ast.Expr {
 	name := ast.Var(t.Lexeme, t.Pos)
-	rhs := p.expr(bp - 1)
+	rhs := p.exprRight(bp)
 	rg := pos.Range(lhs, rhs)
 	return ast.Binary(name, oper.INFIX_R, lhs, rhs, rg)
 }
 
 func binaryN(p *parser, bp oper.BP, lhs ast.Expr, t *token.Token) ast.Expr {
 	name := ast.Var(t.Lexeme, t.Pos)
-	rhs := p.expr(bp) // 这里是否-1无所谓, 之后会检查
+	rhs := p.expr(bp)
+	// a non-associative operator cannot be chained with itself; checked here,
+	// where the chain is built, so that it holds in every context
+	if l, ok := lhs.(*ast.BinaryExpr); ok {
+		p.syntaxAssert(l.IdentExpr.Pos, l.Name != name.Name, "%s non-infix", name.Name)
+	}
+	if r, ok := rhs.(*ast.BinaryExpr); ok {
+		p.syntaxAssert(r.IdentExpr.Pos, r.Name != name.Name, "%s non-infix", name.Name)
+	}
 	rg := pos.Range(lhs, rhs)
 	return ast.Binary(name, oper.INFIX_N, lhs, rhs, rg)
 }
@@ -177,7 +185,7 @@ func parseQuestion(p *parser, bp oper.BP, l ast.Expr, t *token.Token) ast.Expr {
 	name := ast.Var(t.Lexeme, t.Pos)
 	m := p.expr(0)
 	p.mustEat(token.COLON)
-	r := p.expr(bp - 1)
+	r := p.exprRight(bp)
 	rg := pos.Range(l, r)
 	return ast.Tenary(name, l, m, r, rg)
 }
